@@ -335,6 +335,12 @@ def run(chk, tier, seed, replay):
         cases = {k: c for k, c in cases.items() if pick(k, c)}
     if tier == "thorough" and not replay:
         cases = {k: c for k, c in cases.items() if len(c["vs"]) < 3 or vlib.seeded_pick(k, seed, 3) == 0}
+    if not replay:
+        # rustc cannot take an unbounded number of probe modules (the thorough tier once reached 48 GB): every enum of up to two
+        # variants and every wide one, then a seeded share of the rest
+        sel = vlib.cap_cases(list(cases), seed, 6000 if tier == "quick" else 14000,
+                             keep=lambda k: len(cases[k]["vs"]) <= (2 if tier == "quick" else 1) or len(cases[k]["vs"]) > 3)
+        cases = {k: c for k, c in cases.items() if k in sel}
     chk.cov["exhaustive"] = False   # reference-form sets are sampled for enums of 2+ variants
     mods, exps = [], {}
     for k, c in cases.items():
